@@ -197,9 +197,10 @@ def smartDateParse (w : TimeWorld) (format : Bytes) (loc : C18.Loc) (dateStage :
     -- `emptyTime, _ := EvalStaticStage(dateStage)`
     match dateStage.probe with
     | .error m => .error m
-    | .ok (emptyTime, _) => .ok (do
+    | .ok (_emptyTime, _) => .ok (do
       let strTime ← dateStage
-      if strTime = [] ∨ strTime = emptyTime then pure ErrorParsing
+      -- since /repo cb6fa4b the static-analysis value is parsed like any other (only its layout is not remembered)
+      if strTime = [] then pure ErrorParsing
       else do
         let live ← w.detect strTime
         match live with
